@@ -132,15 +132,15 @@ Theorem have_cell_iff : forall v w o w' r t,
     have_cell t' = have_cell t /\
     match o with
     | OSlice _ _ _ | OStack _ _ => is_some (ul t') = is_some (ul t) /\ is_some (ua t') = is_some (ua t)
-    | OJoin _ _ _ | OMdJoin _ => complete_or_none t' = true
+    | OJoin _ _ _ _ | OMdJoin _ _ => complete_or_none t' = true
     | _ => if is_inplace o then ul t' = ul t /\ ua t' = ua t else complete_or_none t' = true
     end.
 Proof. exact structural_have_cell. Qed.
 Print Assumptions have_cell_iff.
 
-Theorem join_refuses_mixed_cells : forall v w r others ct w' t os,
+Theorem join_refuses_mixed_cells : forall v w r others ct dis w' t os,
   wf w -> nth_error (trajs w) r = Some t -> get_all w others = Some os ->
-  step v w (OJoin r others ct) = (w', ROk) ->
+  step v w (OJoin r others ct dis) = (w', ROk) ->
   forallb (fun o => Bool.eqb (have_cell t) (have_cell o)) os = true.
 Proof. exact join_operands_agree. Qed.
 Print Assumptions join_refuses_mixed_cells.
@@ -159,7 +159,7 @@ Theorem half_set_cell_witnesses :
   reg_state (fst (run v_fix (init_world specs_cell) [OSetLengths 0 None])) 0 = Some (false, true) /\
   (let w := fst (run v_fix (init_world specs_cell)
                   [OSetAngles 0 None; OSlice 0 (KSlice (Some 1%Z) None None) true; OStack 0 1; OSetAngles 1 None;
-                   OJoin 0 [0%nat] true; OAtomSlice 0 [0%Z] false]) in
+                   OJoin 0 [0%nat] true false; OAtomSlice 0 [0%Z] false]) in
    reg_state w 2 = Some (true, false) /\ reg_state w 3 = Some (true, false) /\
    reg_state w 4 = Some (false, false) /\ reg_state w 5 = Some (false, false)).
 Proof. exact half_set_witnesses. Qed.
